@@ -350,7 +350,7 @@ func (m *Model) apply(o Op, hint *Res) Res {
 	// Implementation-only failures (internal errors that are not part of the S3 vocabulary) are
 	// outside the model: the operation is treated as failed and the model state stays as it was
 	// (whether it really left no trace is C03's question). They are counted by the engine.
-	if hint != nil && strings.HasPrefix(hint.Err, "other:") && o.Kind != "Mpu" {
+	if hint != nil && (strings.HasPrefix(hint.Err, "other:") || hint.Err == "NotImplemented") && o.Kind != "Mpu" {
 		return Res{Err: hint.Err}
 	}
 	switch o.Kind {
